@@ -14,7 +14,9 @@
 package sent
 
 import (
+	"crypto/rand"
 	"fmt"
+	"io"
 	"sort"
 	"strings"
 	"testing"
@@ -41,6 +43,32 @@ type nullRecorder struct{ n int }
 func (r *nullRecorder) RecordEvent(qlogwriter.Event) { r.n++ }
 func (r *nullRecorder) Close() error                 { return nil }
 
+// scriptedReader replaces crypto/rand.Reader (used by the skipping packet number generator) so that small
+// skip distances occur: mode 1 = always 0..7, mode 2 = half of the draws 0..7, the rest uniform.
+type scriptedReader struct {
+	mode int
+	r    *vh.Rand
+}
+
+var realRandReader io.Reader = rand.Reader
+
+func (s *scriptedReader) Read(b []byte) (int, error) {
+	if s.mode == 0 {
+		return realRandReader.Read(b)
+	}
+	small := s.mode == 1 || s.r.Bool()
+	for i := range b {
+		b[i] = byte(s.r.U64())
+		if small && i < len(b)-1 {
+			b[i] = 0
+		}
+		if small && i == len(b)-1 {
+			b[i] &= 7
+		}
+	}
+	return len(b), nil
+}
+
 type ackSpec struct {
 	lvl    string
 	delay  int64
@@ -60,6 +88,7 @@ type runner struct {
 	client  bool
 	dropped [2]bool
 	hsSent  bool
+	sentA   bool // a 1-RTT packet was sent
 	sent    [3][]int64 // packet numbers sent per space (since creation / Retry)
 	peer    [3][]int64 // those the simulated peer received
 	stale   []ackSpec
@@ -69,6 +98,7 @@ type runner struct {
 	nextFrame int
 	style     int
 	inited    bool
+	zeroPhase bool // this client starts with 0-RTT data
 	draining  int
 }
 
@@ -85,7 +115,8 @@ func frameID(f wire.Frame) string {
 	return "?"
 }
 
-func (rn *runner) create(client bool, pn int64, val, ecn, ql, u bool, pl int64, pls []protocol.PacketNumberLen, base int64, mad int64) {
+func (rn *runner) create(client bool, pn int64, val, ecn, ql, u bool, pl int64, pls []protocol.PacketNumberLen, base int64, mad int64, rnd int) {
+	rand.Reader = &scriptedReader{mode: rnd, r: vh.NewRand(uint64(pn)*31 + uint64(rnd))}
 	rn.rtt = utils.NewRTTStats()
 	rn.rtt.SetMaxAckDelay(time.Duration(mad))
 	pers := protocol.PerspectiveServer
@@ -113,6 +144,7 @@ func (rn *runner) create(client bool, pn int64, val, ecn, ql, u bool, pl int64, 
 	rn.client = client
 	rn.dropped = [2]bool{}
 	rn.hsSent = false
+	rn.sentA = false
 	rn.sent = [3][]int64{}
 	rn.peer = [3][]int64{}
 	rn.stale = nil
@@ -122,8 +154,9 @@ func (rn *runner) create(client bool, pn int64, val, ecn, ql, u bool, pl int64, 
 func newRunner(r *vh.Rand) vh.Runner {
 	rn := &runner{now: 1_000_000_000 + r.Range(0, 1_000_000_000)}
 	// default configuration (what the oracle assumes when the `init` line is absent)
-	rn.create(true, 0, false, false, false, false, 0, nil, 0, 25_000_000)
-	rn.style = r.Pick(45, 25, 15, 15) // mixed / PTO storms / server amplification / loss-heavy
+	rn.create(true, 0, false, false, false, false, 0, nil, 0, 25_000_000, 0)
+	rn.style = r.Pick(45, 25, 15, 15) // mixed / PTO storms / server amplification / bulk sending (congestion and pacing limits)
+	rn.zeroPhase = r.Chance(35)
 	return rn
 }
 
@@ -156,6 +189,10 @@ func space(l string) int {
 // ---------------------------------------------------------------- generator
 
 func (rn *runner) tick(r *vh.Rand) {
+	if rn.style == 3 && r.Chance(85) {
+		rn.now += r.Range(0, 100_000)
+		return
+	}
 	switch r.Pick(60, 25, 10, 5) {
 	case 0:
 		rn.now += r.Range(0, 2_000_000)
@@ -182,8 +219,11 @@ func (rn *runner) liveLevel(r *vh.Rand) string {
 			}
 			continue
 		}
-		if l == "Z" && !rn.client {
-			continue
+		if l == "Z" && (!rn.client || (rn.sentA && !r.Chance(10))) {
+			continue // 0-RTT packets come from a client and (nearly always) before the first 1-RTT packet
+		}
+		if l == "A" && rn.client && !rn.sentA && rn.zeroPhase && r.Chance(85) {
+			l = "Z"
 		}
 		return l
 	}
@@ -256,7 +296,11 @@ func (rn *runner) genSend(r *vh.Rand) string {
 	case r.Chance(15): // not ack-eliciting (ACK only)
 		return fmt.Sprintf("send %s %d %d %d 0 0 -", l, rn.now, r.Range(0, 80), r.Range(25, 60))
 	}
-	return fmt.Sprintf("send %s %d %d %d 0 0 %s", l, rn.now, la, r.Range(25, 1452), rn.genFrames(r, 1+r.Pick(60, 30, 10), false))
+	lo := int64(25)
+	if rn.style == 3 {
+		lo = 1200
+	}
+	return fmt.Sprintf("send %s %d %d %d 0 0 %s", l, rn.now, la, r.Range(lo, 1452), rn.genFrames(r, 1+r.Pick(60, 30, 10), false))
 }
 
 func (rn *runner) genAck(r *vh.Rand) string {
@@ -364,8 +408,8 @@ func (rn *runner) genInit(r *vh.Rand) string {
 			base = pn + r.Range(-1, 2)
 		}
 	}
-	return fmt.Sprintf("init client=%d pn=%d val=%d ecn=%d ql=%d u=%d pl=%d pls=%s base=%d mad=%d", b2i(client), pn, r.Intn(2), r.Intn(2), r.Intn(2), u, pl, pls, base,
-		[]int64{0, 25_000_000, 1_000_000, 200_000_000}[r.Pick(10, 70, 10, 10)])
+	return fmt.Sprintf("init client=%d pn=%d val=%d ecn=%d ql=%d u=%d pl=%d pls=%s base=%d mad=%d rnd=%d", b2i(client), pn, r.Intn(2), r.Intn(2), r.Intn(2), u, pl, pls, base,
+		[]int64{0, 25_000_000, 1_000_000, 200_000_000}[r.Pick(10, 70, 10, 10)], r.Pick(40, 35, 25))
 }
 
 func b2i(b bool) int {
@@ -412,7 +456,7 @@ func (rn *runner) GenOp(r *vh.Rand, i int) string {
 		/*mixed*/ {40, 24, 9, 3, 4, 1, 1, 4, 3, 6, 3, 2},
 		/*pto*/ {28, 10, 38, 4, 5, 1, 1, 3, 2, 5, 2, 1},
 		/*server*/ {36, 20, 10, 3, 4, 0, 1, 14, 6, 4, 1, 1},
-		/*loss*/ {50, 30, 6, 3, 3, 1, 1, 2, 1, 2, 1, 0},
+		/*bulk*/ {62, 10, 3, 2, 2, 1, 1, 2, 1, 14, 1, 1},
 	}[rn.style]
 	switch r.Pick(w...) {
 	case 0:
@@ -560,7 +604,7 @@ func (rn *runner) Exec(op string) string {
 			}
 		}
 		rn.create(kv["client"] == "1", vh.Atoi64(kv["pn"]), kv["val"] == "1", kv["ecn"] == "1", kv["ql"] == "1", kv["u"] == "1",
-			vh.Atoi64(kv["pl"]), pls, vh.Atoi64(kv["base"]), vh.Atoi64(kv["mad"]))
+			vh.Atoi64(kv["pl"]), pls, vh.Atoi64(kv["base"]), vh.Atoi64(kv["mad"]), int(vh.Atoi64(kv["rnd"])))
 		res = "ok"
 	case "send":
 		if len(f) < 8 {
@@ -609,6 +653,9 @@ func (rn *runner) Exec(op string) string {
 		}
 		if sp == 1 {
 			rn.hsSent = true
+		}
+		if f[1] == "A" {
+			rn.sentA = true
 		}
 		res = fmt.Sprintf("pn=%d sk=%s", pn, sk)
 	case "ack":
